@@ -3,6 +3,7 @@ import ExaModel.Lemmas.NegoRefuse
 import ExaModel.Lemmas.NegoPerm
 import ExaModel.Lemmas.NegoWf
 import ExaModel.Generated.CapTable
+import ExaModel.Lemmas.NegoPy
 set_option linter.unusedSimpArgs false
 set_option linter.unusedVariables false
 /-!
@@ -367,6 +368,17 @@ theorem refuse_other_param (ext : Bool) (myAs hold bgpId : Nat) (gs : List (List
     decodeOpen (openRaw ext myAs hold bgpId (encParams ext gs ++ (rawParam ext k v ++ tail))) = .error ⟨2, 4⟩ := by
   have := decodeOpen_other_param ext myAs hold bgpId gs k v tail hf hg hk2 hv hl
   simpa [hk1] using this
+
+/-- **The model is the code** (refusals after negotiation): `Negotiated.validate`, translated statement by
+    statement from /repo on this run (`harness/pylite.py` → `Generated/PyNego.lean`), refuses exactly when and
+    with exactly the (code, subcode) the model's `validateOpen` does — for every configuration, negotiated
+    state and peer OPEN.  The refusal theorems below are about `validateOpen`, hence about the code as it is;
+    a changed comparison or a swapped test in `validate` breaks this obligation directly. -/
+theorem validate_py_is_model (cfg : Cfg) (n : Negotiated) (t : OpenMsg) :
+    Generated.PyNego.Negotiated.validate ⟨⟩ cfg.peerAs n.peerAs (decide (t.bgpId = 0)) cfg.localAs
+        (decide (t.bgpId = cfg.routerId)) t.hold n.multisession.refused n.multisession.code n.multisession.sub =
+      liftValidate (validateOpen cfg n t) :=
+  py_validate_eq_model cfg n t
 
 /-- **bad_peer_as → 2/2**: a peer AS is configured and the peer AS in force differs. -/
 theorem refuse_bad_peer_as (cfg : Cfg) (n : Negotiated) (t : OpenMsg) (h0 : cfg.peerAs ≠ 0)
